@@ -79,6 +79,7 @@ class Case:
         self.mod = None
         self.split = None       # judge-only race search: (slot_begin, line, slot_end, req)
         self.split_state = None
+        self.lock_waits = 0     # how often a thread had to wait for the pre-empted request to release the lock
 
     # ---- outcomes -----------------------------------------------------------------
     def outcome(self, kind):
@@ -273,6 +274,53 @@ def finish_preempted(st):
         raise TimeoutError('request thread hangs')
 
 
+class HLock:
+    """a reentrant lock that knows its owner; stands in for the lock(s) of the machine / the module.
+
+    When a thread finds it held by the request thread that the harness has paused (pre-empted request), that thread
+    is resumed first - what a scheduler does when the running thread blocks - instead of dead-locking the harness.
+    """
+
+    def __init__(self):
+        self._l = threading.RLock()
+        self._owner = None
+        self._depth = 0
+
+    def mine(self):
+        return self._owner == threading.get_ident()
+
+    def acquire(self, blocking=True, timeout=-1):
+        if not self._l.acquire(False):
+            c = CUR
+            st = c.split_state if c is not None else None
+            if st is not None and not st['done'] and threading.get_ident() != st['thread'].ident:
+                c.lock_waits += 1
+                finish_preempted(st)
+            if not blocking:
+                if not self._l.acquire(False):
+                    return False
+            elif not self._l.acquire(timeout=20 if timeout is None or timeout < 0 else timeout):
+                if timeout is None or timeout < 0:
+                    raise TimeoutError('lock of the state machine is never released')
+                return False
+        self._owner = threading.get_ident()
+        self._depth += 1
+        return True
+
+    def release(self):
+        self._depth -= 1
+        if self._depth == 0:
+            self._owner = None
+        self._l.release()
+
+    def __enter__(self):
+        self.acquire()
+        return self
+
+    def __exit__(self, *args):
+        self.release()
+
+
 # ---- instrumented machine ------------------------------------------------------------------------
 _classes = {}
 
@@ -293,7 +341,7 @@ def get_classes():
                 c = CUR
                 # the read inside `with self._lock:` (the swap) is not a place where another thread can post
                 if c is not None and c.in_cycle and not c.suppress and threading.get_ident() == c.cycle_thread \
-                        and not object.__getattribute__(self, '_lock').locked():
+                        and not object.__getattribute__(self, '_lock').mine():
                     c.slot()
             return object.__getattribute__(self, name)
 
@@ -303,6 +351,16 @@ def get_classes():
                 c = CUR
                 if c is not None and c.in_cycle:
                     c.events.append(['take'])
+
+        def _new_state(self, statefunc):
+            # slot H: the last point before the transition (hook + change of state) where a request of another thread
+            # can take effect - the hook reads next_task.  (With hook and change of state under the lock of the
+            # machine it is the point before the lock is taken; without that lock nothing happens between here and
+            # the read in the hook.)
+            c = CUR
+            if c is not None and c.in_cycle and threading.get_ident() == c.cycle_thread:
+                c.slot()
+            StateMachine._new_state(self, statefunc)
 
         def start(self, statefunc, **kwds):
             StateMachine.start(self, statefunc, **kwds)
@@ -401,8 +459,6 @@ def get_classes():
 
     def state_transition(self, sm, newstate):
         c = CUR
-        if c is not None and c.in_cycle:
-            c.slot()
         c.events.append(['enter', sid_of(newstate)])
         c.suppress += 1
         try:
@@ -456,8 +512,6 @@ def get_classes():
 
     def raw_hook(sm, newstate):
         c = CUR
-        if c.in_cycle:
-            c.slot()
         c.events.append(['enter', sid_of(newstate)])
 
     _classes.update(TracedSM=TracedSM, Log=Log, Mod=Mod, create_module=create_module, raw_hook=raw_hook,
@@ -482,6 +536,8 @@ def impl_run(case, choose=None, next_op=None):
         if K['module'] is None:
             K['module'] = K['create_module']()
         mod = K['module']
+        if not isinstance(mod.accessLock, HLock):
+            mod.accessLock = HLock()
         saved = K['fstates'].StateMachine
         K['fstates'].StateMachine = K['TracedSM']
         try:
@@ -493,6 +549,8 @@ def impl_run(case, choose=None, next_op=None):
         c.sm = mod._state_machine
     else:
         c.sm = K['TracedSM'](logger=K['Log'](), transition=K['raw_hook'])
+    if not isinstance(object.__getattribute__(c.sm, '_lock'), HLock):
+        object.__setattr__(c.sm, '_lock', HLock())      # same discipline, but the harness can ask who holds it
     c.sm.maxloops = case['maxloops']
     CUR = c
     ops = []
@@ -517,6 +575,7 @@ def impl_run(case, choose=None, next_op=None):
         if c.split is not None:
             # where the request was actually stopped (function and statement), for the signature
             case['site'] = (c.split_state or {}).get('site', 'not-preempted')
+            case['lock_waits'] = c.lock_waits
     finally:
         CUR = None
     return c.events, c.errors, c.script, ops
@@ -706,6 +765,9 @@ def check_cases(ctx, res, batch, label, compare=True):
         res.traces += 1
         f = features(events)
         res.count(label + '.' + ('hs' if case['hasStates'] else 'raw'))
+        if case.get('split'):
+            res.count('preempted.' + ('cycle-thread-waited-for-the-lock-held-by-the-request' if case.get('lock_waits')
+                                      else 'request-resumed-at-its-slot'))
         for k in sorted(f):
             res.count('feature.' + k)
         if not f:
